@@ -156,7 +156,7 @@ pub fn wasm(sink: &mut Sink, seed: u64, thorough: bool, alphabet: &str, behaviou
     for _ in 0..(if thorough { 300 } else { 40 }) { let len = r.gen_range(0..200); let md = r.gen_range(0..3); qcontents.push(String::from_utf8_lossy(&payload(&mut r, md, len, false)).to_string()); }
     for c in &qcontents { let id = sink.id(); sink.emit(&wasm_qr_event(id, "wasmqr", c)); }
     // longer seeded programs over concrete pools
-    for i in 0..(if thorough { 4000 } else { 300 }) {
+    for i in 0..(if thorough { 4000 } else { 600 }) {
         let len = r.gen_range(1..9);
         let prog: Vec<WCall> = (0..len).map(|_| {
             let col = |r: &mut rand::rngs::StdRng| -> String { if r.gen_range(0..3) == 0 { BAD_COLORS[r.gen_range(0..BAD_COLORS.len())].to_string() } else { OK_COLORS[r.gen_range(0..OK_COLORS.len())].to_string() } };
